@@ -174,8 +174,31 @@ func genC19(cs *CaseSet, rng *Rng, tier string, dir string) {
 				}
 				_, before := read(cc)
 				env.TakeSent()
+				// in every other batch the store is told to reload its file (SIGHUP / the API's reload) over and over while
+				// the posts arrive: the file holds what the store holds, so a reload changes nothing - and must not bring
+				// back a text from before a post that has been acknowledged meanwhile
+				stopReload := make(chan struct{})
+				reloadDone := make(chan struct{})
+				if fn, ok := env.Srv.MessageBoard.(*mobius.FlatNews); ok && k%2 == 0 {
+					go func() {
+						defer close(reloadDone)
+						<-start
+						for {
+							select {
+							case <-stopReload:
+								return
+							default:
+								fn.Reload()
+							}
+						}
+					}()
+				} else {
+					close(reloadDone)
+				}
 				close(start)
 				wg.Wait()
+				close(stopReload)
+				<-reloadDone
 				// the posts as they were announced (that is what was prepended)
 				seen := map[string]bool{}
 				for _, s := range env.TakeSent() {
